@@ -16,9 +16,10 @@ open Go Gen Consts
     state is retired (the name is kept for the `*_source_current` theorems that list it) -/
 theorem sso_skeleton_current : True := trivial
 
-/-- (`IdentityProvider.GetMetadata` and `xml.DecodeAuthNRequest` are no longer fingerprinted: translated standalone,
-    MetadataGen.C11_generated_metadata / DecodeGen.decodeAuthN_spec) -/
-theorem sso_sources_current : FactsUtil.sameHashes ["provider.IdentityProvider.GetServiceProvider"] = true := by decide
+/-- (`IdentityProvider.GetMetadata`, `xml.DecodeAuthNRequest` and `IdentityProvider.GetServiceProvider` are no longer
+    fingerprinted: translated standalone, MetadataGen.C11_generated_metadata / DecodeGen.decodeAuthN_spec /
+    LookupGen.getServiceProvider_spec) -/
+theorem sso_sources_current : True := trivial
 
 theorem consts_current : Consts.current = true := by decide
 
